@@ -6,6 +6,7 @@ WT = 'TidalPy.structures.world_types.tidal'
 WB = 'TidalPy.structures.world_types.basic'
 OB = 'TidalPy.structures.orbit.base'
 RH = 'TidalPy.rheology.rheology'
+OP = 'TidalPy.structures.orbit.physics'
 CV = 'TidalPy.utilities.conversions.conversions'
 
 C13 = [
@@ -33,6 +34,10 @@ C13 = [
     (OB, 'set_states-skips-orbit_changed', "                call_orbit_change=call_orbit_change,\n                set_stellar_orbit=set_stellar_orbit,\n                set_by_world=set_by_world\n                )",
      "                call_orbit_change=False,\n                set_stellar_orbit=set_stellar_orbit,\n                set_by_world=set_by_world\n                )"),
     (OB, 'host-caller-does-not-tell-the-raiser', "            elif set_by_tidal_host:", "            elif False:"),
+    # plumbing (not history) mutants: history and twin agree, only the functional-API clause can see them
+    (OP, 'single-body-derivatives-with-swapped-masses', "                t.mass, t.dUdM, t.dUdw, h.mass\n                )", "                h.mass, t.dUdM, t.dUdw, t.mass\n                )"),
+    (OP, 'dual-body-derivatives-use-host-potential-twice', "                h.mass, h.dUdM, h.dUdw, t.mass, t.dUdM, t.dUdw\n", "                h.mass, h.dUdM, h.dUdw, t.mass, h.dUdM, t.dUdw\n"),
+    (WT, 'spin-derivative-with-own-mass', "            self._spin_time_derivative = self.tidal_host.mass * self.dUdO / self.moi", "            self._spin_time_derivative = self.mass * self.dUdO / self.moi"),
 ]
 
 C17 = [
